@@ -3,8 +3,10 @@ package c17
 import (
 	"fmt"
 	"math/big"
+	"runtime"
 
 	"github.com/youchainhq/go-youchain/common"
+	"github.com/youchainhq/go-youchain/core"
 	"github.com/youchainhq/go-youchain/core/types"
 	"github.com/youchainhq/go-youchain/rlp"
 
@@ -209,7 +211,7 @@ func authMutations(base rawTx) []mutation {
 	}
 	// other network id: (a) right tx, wrong signer (with a warm sender cache);
 	// (b) V re-based to the other network, right signer; (c) both
-	for _, id := range []uint64{1, 2, netID - 1, netID + 1, 2 * netID, 1 << 32} {
+	for _, id := range otherNetworkIDs {
 		id := id
 		rebase := func(r *rawTx) bool {
 			d := new(big.Int).SetUint64(id)
@@ -238,14 +240,69 @@ type authCase struct {
 }
 
 type authFixture struct {
-	txs   []*types.Transaction
-	raws  []rawTx
-	muts  [][]mutation
-	cases []authCase
+	txs     []*types.Transaction
+	raws    []rawTx
+	muts    [][]mutation
+	cases   []authCase
+	fillers []*types.Transaction // valid signed transactions that fill a block up to the size at which ProcessSenders works
+}
+
+// fillerTxs: NumCPU valid transactions of S2 with consecutive nonces from
+// nonceS2 (core.ProcessSenders derives the senders in the background only for
+// batches of at least NumCPU transactions).
+func fillerTxs() []*types.Transaction {
+	var out []*types.Transaction
+	for i := 0; i < runtime.NumCPU(); i++ {
+		t := &txd{From: 1, Nonce: nonceS2 + uint64(i), Price: 1, Limit: 21000, To: toE, Value: big.NewInt(1), Payload: "empty"}
+		out = append(out, t.sign())
+	}
+	return out
+}
+
+// batchWith returns a block-sized batch holding tx at position pos (mod size).
+func batchWith(fillers []*types.Transaction, tx *types.Transaction, pos int) []*types.Transaction {
+	pos %= len(fillers) + 1
+	out := make([]*types.Transaction, 0, len(fillers)+1)
+	out = append(out, fillers[:pos]...)
+	out = append(out, tx)
+	return append(out, fillers[pos:]...)
+}
+
+// senderQuery is one way the node asks a transaction object for its sender.
+type senderQuery struct {
+	name string
+	ask  func(tx *types.Transaction) (common.Address, error)
+}
+
+// senderQueries: the queries made, in this order, on ONE transaction object
+// (sg = the signer of the case, id its network id).  The first is the plain
+// types.Sender; the others are what the node does afterwards with the same
+// object: a second call, AsMessage (ApplyTransaction), an equal signer built
+// independently (every block builds its own), and core.ProcessSenders over a
+// block-sized batch (errors discarded, as the block processor does) followed by
+// AsMessage and Sender.
+func (f *authFixture) senderQueries(sg types.Signer, id uint64, pos int) []senderQuery {
+	asMessage := func(tx *types.Transaction) (common.Address, error) {
+		m, err := tx.AsMessage(sg)
+		return m.From(), err
+	}
+	return []senderQuery{
+		{"Sender", func(tx *types.Transaction) (common.Address, error) { return types.Sender(sg, tx) }},
+		{"Sender, second call", func(tx *types.Transaction) (common.Address, error) { return types.Sender(sg, tx) }},
+		{"AsMessage", asMessage},
+		{"Sender with an equal signer built independently", func(tx *types.Transaction) (common.Address, error) {
+			return types.Sender(types.NewYouSigner(id), tx)
+		}},
+		{"AsMessage after ProcessSenders", func(tx *types.Transaction) (common.Address, error) {
+			core.ProcessSenders(batchWith(f.fillers, tx, pos), sg)
+			return asMessage(tx)
+		}},
+		{"Sender after ProcessSenders", func(tx *types.Transaction) (common.Address, error) { return types.Sender(sg, tx) }},
+	}
 }
 
 func newAuthFixture() *authFixture {
-	f := &authFixture{}
+	f := &authFixture{fillers: fillerTxs()}
 	for bi, b := range authBases() {
 		if b.Payload == "deposit" {
 			b.Data = payloadDeposit
@@ -287,21 +344,187 @@ func (f *authFixture) check(r *mc.Run, c authCase) {
 			return
 		}
 	}
-	var got common.Address
-	msg, where := mc.CatchStack(func() { got, err = types.Sender(sg, tx) })
-	if msg != "" {
-		r.Report(mc.Violation{Sig: fmt.Sprintf("auth: Sender panics on mutated %s at %s", m.Field, where), Detail: in.Desc + ": " + msg, Input: in})
-		return
+	id := uint64(netID)
+	if m.signerID != 0 {
+		id = m.signerID
 	}
 	r.Distinct(fmt.Sprintf("auth|%d|%s|%s", c.base, m.Field, m.Name))
-	switch {
-	case err != nil:
-		r.Count("auth_mutant_rejected_with_error", 1)
-	case got != orig:
-		r.Count("auth_mutant_yields_other_sender", 1)
-	default:
-		r.Report(mc.Violation{Sig: "auth: transaction with mutated " + m.Field + " keeps its sender",
-			Detail: fmt.Sprintf("%s: Sender = %x (the original signer), tx hash %x != original %x", in.Desc, got, tx.Hash(), f.txs[c.base].Hash()), Input: in})
+	// every query on the same object: refused, or a sender that is not the
+	// original signer -- and the same answer every time
+	var first common.Address
+	var firstErr error
+	judge := func(qi int, q string, got common.Address, err error) bool {
+		if err == nil && got == (common.Address{}) {
+			r.Report(mc.Violation{Sig: "auth: sender query answers the zero address without an error (" + q + ")",
+				Detail: fmt.Sprintf("%s: query %d (%s) = (%x, nil); first query = (%x, %v)", in.Desc, qi+1, q, got, first, firstErr), Input: in})
+			return false
+		}
+		if qi == 0 {
+			first, firstErr = got, err
+			switch {
+			case err != nil:
+				r.Count("auth_mutant_rejected_with_error", 1)
+			case got != orig:
+				r.Count("auth_mutant_yields_other_sender", 1)
+			default:
+				r.Report(mc.Violation{Sig: "auth: transaction with mutated " + m.Field + " keeps its sender",
+					Detail: fmt.Sprintf("%s: Sender = %x (the original signer), tx hash %x != original %x", in.Desc, got, tx.Hash(), f.txs[c.base].Hash()), Input: in})
+				return false
+			}
+			return true
+		}
+		switch {
+		case firstErr != nil && err == nil:
+			r.Report(mc.Violation{Sig: "auth: transaction refused by the first sender query is accepted by a later query on the same object (" + q + ")",
+				Detail: fmt.Sprintf("%s: first query err=%v; query %d (%s) = (%x, nil)", in.Desc, firstErr, qi+1, q, got), Input: in})
+			return false
+		case firstErr == nil && (err != nil || got != first):
+			r.Report(mc.Violation{Sig: "auth: repeated sender query on the same object changes its answer (" + q + ")",
+				Detail: fmt.Sprintf("%s: first query = (%x, nil); query %d (%s) = (%x, %v)", in.Desc, first, qi+1, q, got, err), Input: in})
+			return false
+		case err != nil:
+			r.Count("auth_repeated_query_refused_again", 1)
+		default:
+			r.Count("auth_repeated_query_same_other_sender", 1)
+		}
+		return true
+	}
+	for qi, q := range f.senderQueries(sg, id, c.mut) {
+		q := q
+		var got common.Address
+		var err error
+		msg, where := mc.CatchStack(func() { got, err = q.ask(tx) })
+		if msg != "" {
+			name := "Sender"
+			if qi > 0 {
+				name = q.name
+			}
+			r.Report(mc.Violation{Sig: fmt.Sprintf("auth: %s panics on mutated %s at %s", name, m.Field, where), Detail: in.Desc + ": " + msg, Input: in})
+			return
+		}
+		if !judge(qi, q.name, got, err) {
+			return
+		}
+	}
+	// the same wire form on a FRESH object whose first contact is the block
+	// processor's background derivation: same answer
+	if tx2, err := raw.decode(); err == nil {
+		var got common.Address
+		var qerr error
+		q := "fresh object: AsMessage after ProcessSenders"
+		msg, where := mc.CatchStack(func() {
+			core.ProcessSenders(batchWith(f.fillers, tx2, c.mut+1), sg)
+			var m2 types.Message
+			m2, qerr = tx2.AsMessage(sg)
+			got = m2.From()
+		})
+		if msg != "" {
+			r.Report(mc.Violation{Sig: fmt.Sprintf("auth: %s panics on mutated %s at %s", q, m.Field, where), Detail: in.Desc + ": " + msg, Input: in})
+			return
+		}
+		judge(6, q, got, qerr)
+	}
+	r.Count("auth_objects_queried_repeatedly", 1)
+}
+
+// otherNetworkIDs: the foreign networks used on the signer side.
+var otherNetworkIDs = []uint64{1, 2, netID - 1, netID + 1, 2 * netID, 1 << 32}
+
+// controlCrossSigner: a VALID transaction object is asked for its sender by
+// signers of another network and of this network in every order: the foreign
+// signer is refused every time, the right one gets the signer every time (the
+// sender cache is bound to the signer and never holds a failed derivation).
+func (f *authFixture) controlCrossSigner(r *mc.Run) {
+	type step struct {
+		name    string
+		foreign bool
+		ask     func(tx *types.Transaction, sg types.Signer) (common.Address, error)
+	}
+	sender := func(tx *types.Transaction, sg types.Signer) (common.Address, error) { return types.Sender(sg, tx) }
+	asMessage := func(tx *types.Transaction, sg types.Signer) (common.Address, error) {
+		m, err := tx.AsMessage(sg)
+		return m.From(), err
+	}
+	for bi := range f.txs {
+		want := senders[authBases()[bi].From]
+		for _, id := range otherNetworkIDs {
+			for order := 0; order < 2; order++ {
+				tx, err := f.raws[bi].decode()
+				if err != nil {
+					r.HarnessError("auth control: base transaction does not decode: " + err.Error())
+					return
+				}
+				own, other := types.Signer(types.NewYouSigner(netID)), types.Signer(types.NewYouSigner(id))
+				batchOther := func(tx *types.Transaction, sg types.Signer) (common.Address, error) {
+					core.ProcessSenders(batchWith(f.fillers, tx, bi+int(id%7)), other)
+					return asMessage(tx, sg)
+				}
+				batchOwn := func(tx *types.Transaction, sg types.Signer) (common.Address, error) {
+					core.ProcessSenders(batchWith(f.fillers, tx, bi+int(id%5)), own)
+					return asMessage(tx, sg)
+				}
+				steps := []step{
+					{"Sender(foreign signer)", true, sender},
+					{"Sender(right signer)", false, sender},
+					{"Sender(foreign signer) again", true, sender},
+					{"Sender(foreign signer) a third time", true, sender},
+					{"Sender(right signer) again", false, sender},
+					{"AsMessage(foreign signer)", true, asMessage},
+					{"AsMessage(right signer)", false, asMessage},
+					{"AsMessage(foreign signer) after ProcessSenders with the foreign signer", true, batchOther},
+					{"AsMessage(right signer) after ProcessSenders with the foreign signer", false, batchOther},
+					{"AsMessage(foreign signer) after ProcessSenders with the right signer", true, batchOwn},
+					{"AsMessage(right signer) after ProcessSenders with the right signer", false, batchOwn},
+					{"Sender(foreign signer) at the end", true, sender},
+					{"Sender(right signer) at the end", false, sender},
+				}
+				if order == 1 {
+					// the right signer first (warm cache), then the foreign one
+					steps[0], steps[1] = steps[1], steps[0]
+				}
+				in := authInput{"auth", bi, -1, fmt.Sprintf("control: base %d, foreign network %d, order %d", bi, id, order)}
+				ok := true
+				for si, st := range steps {
+					sg := own
+					if st.foreign {
+						sg = other
+					}
+					// an equal signer built independently on every second step
+					if si%2 == 1 {
+						if st.foreign {
+							sg = types.NewYouSigner(id)
+						} else {
+							sg = types.NewYouSigner(netID)
+						}
+					}
+					var got common.Address
+					var qerr error
+					st := st
+					if msg, where := mc.CatchStack(func() { got, qerr = st.ask(tx, sg) }); msg != "" {
+						r.Report(mc.Violation{Sig: "auth control: sender query panics on a valid transaction at " + where, Detail: in.Desc + ": " + st.name + ": " + msg, Input: in})
+						ok = false
+						break
+					}
+					switch {
+					case st.foreign && qerr == nil:
+						r.Report(mc.Violation{Sig: "auth control: valid transaction is accepted by a signer of another network (" + st.name + ")",
+							Detail: fmt.Sprintf("%s: step %d %s = (%x, nil), signer of this network gives %x", in.Desc, si+1, st.name, got, want), Input: in})
+						ok = false
+					case !st.foreign && (qerr != nil || got != want):
+						r.Report(mc.Violation{Sig: "auth control: valid transaction does not yield its signer on a repeated query (" + st.name + ")",
+							Detail: fmt.Sprintf("%s: step %d %s = (%x, %v), want %x", in.Desc, si+1, st.name, got, qerr, want), Input: in})
+						ok = false
+					}
+					if !ok {
+						break
+					}
+					r.Count("auth_control_cross_signer_queries", 1)
+				}
+				if ok {
+					r.Count("auth_control_cross_signer_sequences_ok", 1)
+				}
+			}
+		}
 	}
 }
 
@@ -325,6 +548,7 @@ func runAuth(r *mc.Run) {
 			r.Count("auth_control_sender_ok", 1)
 		}
 	}
+	f.controlCrossSigner(r)
 	r.ForEach(len(f.cases), func(w, i int) { f.check(r, f.cases[i]) })
 	r.Sample(fmt.Sprintf("auth: %d single-field mutations over %d signed base transactions", len(f.cases), len(f.txs)))
 }
